@@ -451,6 +451,116 @@ SMARTS_LIB = ['C', 'N', 'O', '[#6]', '[C,N]', '[C,N,O;D2]', 'A', '[A]', '[M]', '
               '[La]', '[Lv]', '[#57,#58]', 'F[Th]', 'C[Hg]', 'Cl[Au]', 'C[Pb]', 'O=[Os]', 'Cl[Pt]', 'F[Th,U]', 'C[Sn,Pb]', '[Hg,Pb]C', 'C[Hg]C', 'B1OCCO1', 'O=C1NC=CC(=O)N1', '[C;r12]', 'C1CCCCCCCCCCC1']
 
 
+# ring queries for the family of small dense polycycles (plain carbons, single bonds: a brute-force oracle applies)
+RING_QUERIES = ['C1CC1', 'C1CCC1', 'C1CCCC1', 'C1CCCCC1', 'CC1CC1', 'CC1CCC1', 'CC1CCCC1', 'C1CC(C)C1', 'CC1CCC1C', 'CC1(C)CC1',
+                'C1C2CC12', 'C1CC2CC12', 'C1CC2CCC12', 'C1CC2CC2C1', 'C1CC12CC2', 'C1C2CC1C2', 'C12CC1C2', 'CC1C2CC12', 'C1CC2C(C1)C2',
+                'C1CC2(C1)CC2']
+
+
+def polycycles(nmin=5, nmax=7, rmin=2, rmax=4, maxdeg=4):
+    """every connected graph with nmin..nmax vertices, rmin..rmax independent rings and degree <= maxdeg, once, as the SMILES
+    of the saturated hydrocarbon (274 graphs for 5-7 / 2-4 / 4): propellanes, bicyclobutanes, cages ... .  Built by adding
+    pendant vertices and then edges; RDKit's canonical SMILES only removes isomorphic duplicates (generator, not oracle)."""
+    from rdkit import Chem, RDLogger
+    RDLogger.DisableLog('rdApp.*')
+
+    def key(n, edges):
+        m = Chem.RWMol()
+        for _ in range(n):
+            m.AddAtom(Chem.Atom(6))
+        for a, c in edges:
+            m.AddBond(a, c, Chem.BondType.SINGLE)
+        mol = m.GetMol()
+        Chem.SanitizeMol(mol)
+        return Chem.MolToSmiles(mol)
+
+    def degrees(m, es):
+        deg = [0] * m
+        for a, c in es:
+            deg[a] += 1
+            deg[c] += 1
+        return deg
+    trees = {1: {'C': (1, frozenset())}}
+    for n in range(2, nmax + 1):
+        cur = {}
+        for m, es in trees[n - 1].values():
+            deg = degrees(m, es)
+            for v in range(m):
+                if deg[v] < maxdeg:
+                    e2 = frozenset(es | {(v, m)})
+                    cur.setdefault(key(n, e2), (n, e2))
+        trees[n] = cur
+    out = []
+    for n in range(nmin, nmax + 1):
+        level = trees[n]
+        for r in range(1, rmax + 1):
+            nxt = {}
+            for m, es in level.values():
+                deg = degrees(m, es)
+                for a, c in itertools.combinations(range(m), 2):
+                    if (a, c) not in es and deg[a] < maxdeg and deg[c] < maxdeg:
+                        e2 = frozenset(es | {(a, c)})
+                        nxt.setdefault(key(n, e2), (n, e2))
+            level = nxt
+            if r >= rmin:
+                out.extend((n, r, k) for k in sorted(level))
+    return out
+
+
+def brute_induced(q, m):
+    """all injective maps of the query atoms into the molecule atoms that preserve adjacency AND non-adjacency (what both
+    matchers must return for plain-carbon single-bond queries without the automorphism filter); plain backtracking"""
+    qn = list(q._atoms)
+    qadj = {n: set(q._bonds[n]) for n in qn}
+    madj = {n: set(m._bonds[n]) for n in m._atoms}
+    res = []
+
+    def rec(i, mp, used):
+        if i == len(qn):
+            res.append(dict(mp))
+            return
+        u = qn[i]
+        for v in madj:
+            if v not in used and all((w in qadj[u]) == (mp[w] in madj[v]) for w in qn[:i]):
+                mp[u] = v
+                used.add(v)
+                rec(i + 1, mp, used)
+                used.discard(v)
+                del mp[u]
+    rec(0, {}, set())
+    return res
+
+
+def cycle_query(m, rng):
+    """a ring cut out of the molecule (a simple cycle of 3-6 atoms found by a random walk), with or without one substituent;
+    only the cycle bonds are kept, so the query need not match (the matchers look for induced embeddings)"""
+    from chython.containers import QueryContainer
+    for _ in range(20):
+        start = rng.choice(list(m._atoms))
+        path = [start]
+        while len(path) < 7:
+            nxt = [k for k in m._bonds[path[-1]] if k not in path[1:] and (k != start or len(path) >= 3)]
+            if not nxt:
+                break
+            k = rng.choice(nxt)
+            if k == start:
+                if 3 <= len(path) <= 6:
+                    q = QueryContainer('cycle')
+                    for n in path:
+                        q.add_atom('C', n)
+                    for a, c in zip(path, path[1:] + [start]):
+                        q.add_bond(a, c, 1)
+                    subs = [(n, k2) for n in path for k2 in m._bonds[n] if k2 not in path]
+                    if subs and rng.random() < .5:
+                        n, k2 = rng.choice(subs)
+                        q.add_atom('C', k2)
+                        q.add_bond(n, k2, 1)
+                    return q
+                break
+            path.append(k)
+    return None
+
+
 def molecules(rng, tier):
     from chython import smiles, MoleculeContainer
     out = []
@@ -460,6 +570,12 @@ def molecules(rng, tier):
     m.add_atom('C'), m.add_atom('C'), m.add_atom('O')
     m.add_bond(1, 2, 8), m.add_bond(2, 3, 1)
     out.append(('special-bond', 'C~CO (order 8)', m))
+    fam = polycycles()
+    if tier == 'quick':
+        small = [f for f in fam if f[0] <= 6]
+        fam = small + rng.sample([f for f in fam if f[0] == 7], 70)
+    for n, r, s in fam:
+        out.append(('polycycle', s, smiles(s)))
     pool = corpus.sample(corpus.lipo(), 30 if tier == 'quick' else 600, rng.random(), 'c09')
     for s in pool:
         try:
@@ -856,11 +972,19 @@ def corr_pairs(ck, rng, mod, lay):
     sb = synth_bond_mol()
     mols.append(('synthetic-bonds', 'synthetic bond fragments', sb))
     bond_queries = synth_bond_queries()
+    ring_queries = [(s, smarts(s)) for s in RING_QUERIES]
+    p_poly = .05 if ck.tier == 'quick' else .4
+    n_brute = 0
     for kind, text, m in mols:
         h_none = any(a.implicit_hydrogens is None for a in m._atoms.values())
         if h_none:
             ck.count('molecule with an atom whose implicit_hydrogens is None (raw aromatic heteroatom, valence error)')
         qs = [(s, q) for s, q in rng.sample(lib, min(per_mol, len(lib)))] if kind == 'corpus' else list(lib)
+        if kind == 'polycycle':
+            qs = list(ring_queries)
+            cq = cycle_query(m, rng)
+            if cq is not None:
+                qs.append(('cycle cut from ' + text + ' ' + repr(sorted(cq._atoms)), cq))
         if kind == 'synthetic-bonds':
             qs = bond_queries if ck.tier != 'quick' else bond_queries[::2] + bond_queries[1::4]
         if kind == 'corpus':
@@ -869,7 +993,7 @@ def corr_pairs(ck, rng, mod, lay):
                 qs.append(('fragment of ' + text, fq))
         rm = rmol_term(m)
         for qtext, q in qs:
-            res, err = component_runs(q, m, rng, mod, full_only=kind == 'synthetic-bonds')
+            res, err = component_runs(q, m, rng, mod, full_only=kind in ('synthetic-bonds', 'polycycle'))
             if res is None:
                 ck.unchecked('encoders raised on a library query / molecule', err, [qtext, text])
                 continue
@@ -900,7 +1024,18 @@ def corr_pairs(ck, rng, mod, lay):
                 elif as_set(fast) != as_set(slow):
                     mismatches.append((qtext, text, q, m, 'different sets of mappings from one component / scope call'))
                 n_oracle += not h_none
-                if rng.random() >= (p_hit if (slow or fast) else p_empty) and kind == 'seed':
+                if kind == 'polycycle' and len(comps) == 1:
+                    # third, independent answer: brute-force enumeration of the induced embeddings
+                    want = as_set(brute_induced(q, m))
+                    n_brute += 1
+                    ck.count('polycycle pair: ' + ('some' if want else 'no') + ' embeddings (brute force)')
+                    if as_set(slow) != want or as_set(fast) != want:
+                        who = 'accelerated' if as_set(slow) == want else 'reference' if as_set(fast) == want else 'both'
+                        mismatches.append((qtext, text, q, m, f'{who} matcher(s) differ from the brute-force enumeration of induced embeddings '
+                                                              f'({len(want)} expected, accelerated {len(fast)}, reference {len(slow)})'))
+                if kind == 'seed' and rng.random() >= (p_hit if (slow or fast) else p_empty):
+                    continue
+                if kind == 'polycycle' and rng.random() >= (p_poly * 2 if any(clo.get(e[0]) for e in comp) and (slow or fast) else p_poly / 2):
                     continue
                 n_pairs += 1
                 if n_pairs % 3 == 0:
@@ -924,6 +1059,7 @@ def corr_pairs(ck, rng, mod, lay):
         ck.extra['search_pairs_inside_theorem_hypotheses'] = f'{len(hyp_cases) - len(outside)} of {len(hyp_cases)} sampled calls'
     ck.extra['search_pairs'] = n_pairs
     ck.extra['component_scope_calls_compared'] = n_oracle
+    ck.extra['polycycle_pairs_vs_brute_force'] = n_brute
     if cases:
         k = next((i for i, x in enumerate(meta) if x[0] == 'pair' and 'Some [[' in cases[i]), 0)
         ck.sample({'model_call': cases[k][:600], 'meta': repr(meta[k])})
@@ -981,7 +1117,7 @@ def report_pair(ck, qtext, text, q, m, what, kw=None):
                       {'reference': sorted(map(sorted, (d.items() for d in slow)))[:5]}, 'q.get_mapping(m) vs q.get_mapping(m, _cython=False)',
                       replay_py=(REPLAY_PRE + f'q = smarts({qtext!r}); m = smiles({text!r}); '
                                  f'print(list(q.get_mapping(m, **{kw or {}!r}))); print(list(q.get_mapping(m, _cython=False, **{kw or {}!r})))')
-                      if not qtext.startswith('fragment') and not text.startswith('synthetic') else None)
+                      if not qtext.startswith(('fragment', 'cycle cut')) and not text.startswith('synthetic') else None)
 
 
 # ---------------------------------------------------------------------------------------------------------
@@ -1064,6 +1200,20 @@ def search(ck, rng, mod):
             ck.count('api search: ' + ('some mappings' if slow else 'no mapping') + (', ' + ','.join(kw) if kw else ''))
             if isinstance(fast, str) or as_set(fast) != as_set(slow):
                 report_pair(ck, qt if qt != 'fragment' else 'fragment ' + repr(q._atoms), s, q, m, 'different sets of mappings (public API)', kw)
+    # (3) small dense polycycles x ring queries through the public API (both settings of the automorphism filter)
+    fam = polycycles()
+    rq = [(t, smarts(t)) for t in RING_QUERIES]
+    for n, r, t in rng.sample(fam, 40 if ck.tier == 'quick' else len(fam)):
+        m = smiles(t)
+        for qt, q in rq:
+            kw = rng.choice([{}, {'automorphism_filter': False}])
+            fast, slow = both_paths(q, m, **kw)
+            n_eval += 1
+            n_hit += bool(slow)
+            ck.case(('api-poly', qt, t, tuple(kw)), nontrivial=bool(slow))
+            ck.count('api search (polycycles): ' + ('some mappings' if slow else 'no mapping'))
+            if isinstance(fast, str) or as_set(fast) != as_set(slow):
+                report_pair(ck, qt, t, q, m, 'different sets of mappings (public API, dense polycycle)', kw)
     okg, fg, logg = coqcases.run_cases('c09_guard', 'PyBase', guard_cases, extra=EXTRA, shard=30)
     ck.oblige('correspondence: the guard of QueryIsomorphism.get_mapping (mask path entered iff no hydrogen count is None) == uses_mask_path',
               okg and not fg, 'correspondence', logg or str([guard_meta[i] for i in fg[:5]]))
